@@ -699,6 +699,13 @@ def run_decode(ctx, frames=None, monitor=True):
         ctx.report("correspondence:decode-welltyped",
                    "%d decoded items are not well typed although decode_wellTyped says they are" % cov["wtd_false"],
                    dict(first_wt, broken="theorem C13Decode.decode_wellTyped vs Drivers/Decode.lean"), no_input=True)
+    cov["rule"] = ("frames = repo-encoded valid requests for every dispatched operation x version (SessGen.valid over "
+                   "gen_engine items, Gen.request batches) + 13 framing mutations of SessGen.mutate + 7 schema mutations "
+                   "(structural) + raw frames + hand-made lenient corners; a frame counts as non-trivial when the real "
+                   "decoder accepts it (both_accept) or when model and implementation reject it for a modelled reason")
+    cov["evaluations"] = len(frames)
+    cov["distinct_nontrivial"] = len({fr for fr, _ in frames})
+    cov["samples"] = [{"class": m["class"], "ops": m.get("ops"), "hex": fr.hex()[:160]} for fr, m in frames[:2] + frames[-2:]]
     cov["seconds"] = {"generate": round(t_gen, 1), "model_driver": round(t_model, 1), "implementation": round(t_impl, 1),
                       "total": round(time.time() - t0, 1)}
     return cov
